@@ -99,7 +99,12 @@ func Shrink(raw json.RawMessage) []json.RawMessage {
 		emit(func(c *Scenario) bool { c.ConcPeer = false; c.Tapes, c.HaveTape = nil, false; return true })
 	}
 	if sc.SharedPacker {
-		emit(func(c *Scenario) bool { c.SharedPacker = false; c.ConcPeer = false; c.Tapes, c.HaveTape = nil, false; return true })
+		emit(func(c *Scenario) bool {
+			c.SharedPacker = false
+			c.ConcPeer = false
+			c.Tapes, c.HaveTape = nil, false
+			return true
+		})
 	}
 	for ai := range sc.Archives {
 		ai := ai
